@@ -196,7 +196,13 @@ class TestCaseMutation(MutationOperator):
                 # Also include the position after the last mutatable statement.
                 max_position += 1
 
+            backup = chromosome.test_case.clone()
             position = test_factory.insert_random_statement(chromosome.test_case, max_position)
+            if chromosome.size() > config.configuration.search_algorithm.chromosome_length:
+                # The inserted statement together with the statements it depends on
+                # does not fit into the configured maximum length any more.
+                chromosome.test_case = backup
+                break
             exponent += 1
             if 0 <= position < chromosome.size():
                 changed = True
